@@ -63,8 +63,11 @@ var (
 // markerFn is the shape of every user function in this monitor: it reports on every (non-zero)
 // value it is called for, with a marker that identifies which registration was resolved.
 func markerFn(marker string) valid.CommonValidFn {
+	// the message words live in a slice of the function's own and are handed over with the spread
+	// operator on every invocation (the helper reads them, it does not keep or change them)
+	words := []string{marker}
 	return func(errBuf *strings.Builder, validName, objName, fieldName string, tv reflect.Value) {
-		errBuf.WriteString(valid.GetJoinValidErrStr(objName, fieldName, valid.ToStr(tv.Interface()), marker))
+		errBuf.WriteString(valid.GetJoinValidErrStr(objName, fieldName, valid.ToStr(tv.Interface()), words...))
 	}
 }
 
